@@ -135,14 +135,16 @@ Print Assumptions C01_text_roundtrip.
     parse_table_factor (tables, derived tables, nested joins with the maybe_parse fallback) /
     parse_optional_alias / parse_parenthesized_column_list / the LIMIT-OFFSET loop and of the Display impls of
     Query / With / Cte / SetExpr / Select / SelectItem / TableWithJoins / Join / TableFactor / OrderByExpr,
-    over the expression model above; the dialect records [qd_<dialect>] are regenerated from the running
+    over the expression model above, whose expressions may hold subqueries ([(query)], [x [NOT] IN (query)],
+    [[NOT] EXISTS (query)], [x = ANY (query)]: atoms standing for the queries of the expression, read by
+    [parse_query] one level down); the dialect records [qd_<dialect>] are regenerated from the running
     crate (gen/QueryTables.v). *)
 Require Import SqlV.SetOps SqlV.QueryCore SqlV.QueryCoreProofs SqlVGen.QueryTables.
 
 (** generated side conditions: unknown level 0, AND below BETWEEN, the clause keywords are reserved
     (FROM WHERE GROUP HAVING UNION EXCEPT INTERSECT ORDER LIMIT OFFSET as column alias, all but FROM
-    as table alias, and so are the join keywords JOIN INNER LEFT RIGHT FULL CROSS NATURAL ON USING), and
-    RESERVED_FOR_COLUMN_ALIAS lists only keywords other than NOT *)
+    as table alias, and so are the join keywords JOIN INNER LEFT RIGHT FULL CROSS NATURAL ON USING),
+    RESERVED_FOR_COLUMN_ALIAS lists only keywords other than NOT, and not EXISTS *)
 Lemma C01_query_tables_ok : forall d, In d QueryTables.all_qdialects -> dialect_ok d = true.
 Proof.
   intros d H. cbn [QueryTables.all_qdialects In] in H.
@@ -156,7 +158,8 @@ Proof. reflexivity. Qed.
 
 (** the round trip: for EVERY well-formed query tree of the fragment (not only parser outputs) - WITH
     [RECURSIVE] and its CTEs with or without column lists, SELECT with joins of every kind and constraint,
-    nested joins, derived tables, set operations, ORDER BY / LIMIT / OFFSET -, every dialect, every
+    nested joins, derived tables, VALUES and TABLE bodies, set operations, ORDER BY / LIMIT / OFFSET,
+    subqueries inside the expressions of every clause -, every dialect, every
     continuation that ends a query: parsing the printed tokens returns the tree and the continuation,
     for every fuel from the nesting level up *)
 Theorem C01_query_roundtrip : forall d q rest fuel,
@@ -190,6 +193,13 @@ Proof.
 Qed.
 Print Assumptions C01_query_joins_roundtrip.
 
+(** an expression without subquery atoms needs nothing beyond the conditions of the operator core
+    ([ewf]: shape, precedence invariant, canonical spelling, the conservative [frag_ok]): the conditions on
+    subquery atoms ([sq_ok], [lead_ok]) hold by themselves *)
+Theorem C01_query_plain_expr : forall d e, nobig (yield e) = true -> xwf d (X e []) = ewf (base d) e.
+Proof. exact xwf_plain. Qed.
+Print Assumptions C01_query_plain_expr.
+
 Theorem C01_qtoks_injective : forall d q1 q2,
   In d QueryTables.all_qdialects ->
   qwf d q1 = true -> qwf d q2 = true -> qfrag d (qtoks q1) = true -> qtoks q1 = qtoks q2 -> q1 = q2.
@@ -205,11 +215,12 @@ Definition qd_switch (tr un we : bool) : qdialect :=
   {| base := d_generic; res_col := res_col_all; res_tab := res_tab_all; limit_comma := false;
      limit_by := false; trailing := tr; proj_trailing := false; wild_except := we; wild_ilike := false;
      select_as := false; unnest_table := un; hyphen_table := false; group_by_expr := false;
-     paren_tables := false; group_with := false |}.
+     paren_tables := false; group_with := false; exists_fn := false; values_empty := false |}.
 Definition qx n := QE (TAtom false n).
+Definition xa n : xexpr := X (EAtom false n) [].
 Definition q_sel items from : query := Query None (BSelect false items from None [] None) [] None None.
 Definition tw n : twj := Twj (TTable n None) [].
-Definition q1 : query := q_sel [IExpr (EAtom false 1)] [].
+Definition q1 : query := q_sel [IExpr (xa 1)] [].
 
 (** trailing commas: a table after the first one named by a reserved word *)
 Example C01_query_trailing_name_refuted :
@@ -217,7 +228,7 @@ Example C01_query_trailing_name_refuted :
     parse_query d (qlevel q) (qtoks q ++ []) <> Ok (q, []).
 Proof.
   exists (qd_switch true false false),
-         (q_sel [IExpr (EAtom false 1)] [tw (qx 2); tw (QK KSelect)]).
+         (q_sel [IExpr (xa 1)] [tw (qx 2); tw (QK KSelect)]).
   vm_compute. repeat split; try reflexivity. discriminate.
 Qed.
 (** ... a later column of USING (..) named by a reserved word *)
@@ -226,7 +237,7 @@ Example C01_query_trailing_column_refuted :
     parse_query d (qlevel q) (qtoks q ++ []) <> Ok (q, []).
 Proof.
   exists (qd_switch true false false),
-         (q_sel [IExpr (EAtom false 1)]
+         (q_sel [IExpr (xa 1)]
             [Twj (TTable (qx 2) None) [Join (JOp JInner (JUsing [qx 4; QK KWhere])) (TTable (qx 3) None)]]).
   vm_compute. repeat split; try reflexivity. discriminate.
 Qed.
@@ -237,7 +248,7 @@ Example C01_query_trailing_cte_refuted :
 Proof.
   exists (qd_switch true false false),
          (Query (Some (With false [Cte (qx 2) [] q1; Cte (QK KSelect) [] q1]))
-            (BSelect false [IExpr (EAtom false 1)] [] None [] None) [] None None).
+            (BSelect false [IExpr (xa 1)] [] None [] None) [] None None).
   vm_compute. repeat split; try reflexivity. discriminate.
 Qed.
 (** FROM UNNEST where UNNEST(..) is a table factor *)
@@ -245,7 +256,7 @@ Example C01_query_unnest_name_refuted :
   exists d q, dialect_ok d = true /\ qfrag d (qtoks q) = true /\
     parse_query d (qlevel q) (qtoks q ++ []) <> Ok (q, []).
 Proof.
-  exists (qd_switch false true false), (q_sel [IExpr (EAtom false 1)] [tw (QE (TKw KUnnest))]).
+  exists (qd_switch false true false), (q_sel [IExpr (xa 1)] [tw (QE (TKw KUnnest))]).
   vm_compute. repeat split; try reflexivity. discriminate.
 Qed.
 (** [SELECT * EXCEPT SELECT ..] where [* EXCEPT (..)] is a wildcard option *)
@@ -255,7 +266,7 @@ Example C01_query_star_except_refuted :
 Proof.
   exists (qd_switch false false true),
          (Query None (BSetOp Except QNone (BSelect false [IWild] [] None [] None)
-                   (BSelect false [IExpr (EAtom false 1)] [] None [] None)) [] None None).
+                   (BSelect false [IExpr (xa 1)] [] None [] None)) [] None None).
   vm_compute. repeat split; try reflexivity. discriminate.
 Qed.
 (** WITH without RECURSIVE whose first CTE is named RECURSIVE: the text reads as WITH RECURSIVE *)
@@ -265,7 +276,7 @@ Example C01_query_recursive_name_refuted :
 Proof.
   exists (qd_switch false false false),
          (Query (Some (With false [Cte (QK KRecursive) [] q1]))
-            (BSelect false [IExpr (EAtom false 1)] [] None [] None) [] None None).
+            (BSelect false [IExpr (xa 1)] [] None [] None) [] None None).
   vm_compute. repeat split; try reflexivity. discriminate.
 Qed.
 (** a parenthesised join whose first table is named SELECT: [(SELECT JOIN x2)] is read as a query *)
@@ -274,7 +285,7 @@ Example C01_query_nested_starter_refuted :
     parse_query d (qlevel q) (qtoks q ++ []) <> Ok (q, []).
 Proof.
   exists (qd_switch false false false),
-         (q_sel [IExpr (EAtom false 1)]
+         (q_sel [IExpr (xa 1)]
             [Twj (TNested (Twj (TTable (QK KSelect) None) [Join (JOp JInner JNone) (TTable (qx 2) None)]) None) []]).
   vm_compute. repeat split; try reflexivity. discriminate.
 Qed.
@@ -284,7 +295,7 @@ Example C01_query_nested_shape_refuted :
     parse_query d (qlevel q) (qtoks q ++ []) <> Ok (q, []).
 Proof.
   exists (qd_switch false false false),
-         (q_sel [IExpr (EAtom false 1)] [Twj (TNested (tw (qx 2)) None) []]).
+         (q_sel [IExpr (xa 1)] [Twj (TNested (tw (qx 2)) None) []]).
   vm_compute. repeat split; try reflexivity. discriminate.
 Qed.
 Example C01_query_using_empty_refuted :
@@ -292,8 +303,52 @@ Example C01_query_using_empty_refuted :
     parse_query d (qlevel q) (qtoks q ++ []) <> Ok (q, []).
 Proof.
   exists (qd_switch false false false),
-         (q_sel [IExpr (EAtom false 1)]
+         (q_sel [IExpr (xa 1)]
             [Twj (TTable (qx 2) None) [Join (JOp JLeft (JUsing [])) (TTable (qx 3) None)]]).
+  vm_compute. repeat split; try reflexivity. discriminate.
+Qed.
+
+(** subqueries inside expressions: [sq_ok] / [lead_ok] cannot be dropped either *)
+Definition q2 : query := q_sel [IExpr (xa 2)] [].
+(** a subquery whose text starts with a parenthesised operand of a set operation is not read as a
+    subquery: [((SELECT x2) UNION SELECT x2)] *)
+Example C01_query_subquery_lead_refuted :
+  exists d q, dialect_ok d = true /\ qfrag d (qtoks q) = true /\
+    parse_query d (qlevel q) (qtoks q ++ []) <> Ok (q, []).
+Proof.
+  exists (qd_switch false false false),
+         (q_sel [IExpr (X (ENested (EAtom false SQ_BASE))
+                          [Query None (BSetOp Union QNone (BNested q2) (BSelect false [IExpr (xa 2)] [] None [] None)) [] None None])] []).
+  vm_compute. repeat split; try reflexivity. discriminate.
+Qed.
+(** NOT applied to EXISTS (..) is read as NOT EXISTS (..) *)
+Example C01_query_not_exists_refuted :
+  exists d q, dialect_ok d = true /\ qfrag d (qtoks q) = true /\
+    parse_query d (qlevel q) (qtoks q ++ []) <> Ok (q, []).
+Proof.
+  exists (qd_switch false false false), (q_sel [IExpr (X (ENot (EAtom false EX_BASE)) [q2])] []).
+  vm_compute. repeat split; try reflexivity. discriminate.
+Qed.
+(** ... and is accepted as the atom of NOT EXISTS *)
+Example C01_query_not_exists_ok :
+  let q := q_sel [IExpr (X (EAtom false NEX_BASE) [q2])] [] in
+  qwf (qd_switch false false false) q = true /\
+  parse_query (qd_switch false false false) (qlevel q) (qtoks q ++ []) = Ok (q, []).
+Proof. vm_compute. split; reflexivity. Qed.
+
+(** FROM TABLE: TABLE ( .. ) is a table function, TABLE is not a table name; VALUES () needs MySQL *)
+Example C01_query_table_name_refuted :
+  exists d q, dialect_ok d = true /\ qfrag d (qtoks q) = true /\
+    parse_query d (qlevel q) (qtoks q ++ []) <> Ok (q, []).
+Proof.
+  exists (qd_switch false false false), (q_sel [IExpr (xa 1)] [tw (QK KTable)]).
+  vm_compute. repeat split; try reflexivity. discriminate.
+Qed.
+Example C01_query_values_empty_refuted :
+  exists d q, dialect_ok d = true /\ qfrag d (qtoks q) = true /\
+    parse_query d (qlevel q) (qtoks q ++ []) <> Ok (q, []).
+Proof.
+  exists (qd_switch false false false), (Query None (BValues [VRow []]) [] None None).
   vm_compute. repeat split; try reflexivity. discriminate.
 Qed.
 
